@@ -15,7 +15,7 @@ func init() { schedx.Install() } // (after the init of c13_test.go, which sets t
 // TestSchedulesFast: many cheap cases (a case costs about a millisecond unless the command run meanwhile has
 // to wait for the suspended one): mostly single-key commands suspended, no waiting pops, no keys past their deadline.
 func TestSchedulesFast(t *testing.T) {
-	kit.Check(t, kit.Spec[schedx.Case]{Sub: "sched", Quick: 5000, Thorough: 40000, Gen: schedx.Gen(schedx.Profile{Fast: true}), Exec: schedx.Exec, TrackCase: true})
+	kit.Check(t, kit.Spec[schedx.Case]{Sub: "sched", Quick: 8000, Thorough: 40000, Gen: schedx.Gen(schedx.Profile{Fast: true}), Exec: schedx.Exec, TrackCase: true})
 }
 
 func TestSchedules(t *testing.T) {
